@@ -41,25 +41,48 @@ fn event_of_row(k: &str, b: &[u8]) -> Event<'static> {
     }
 }
 
+/// Write the events with the synchronous writer.  The sink is part of the environment: the same events are written into
+/// a `Vec` and into sinks that accept only a few bytes per `write` call; the bytes that arrive must not depend on that
+/// (if they do, the differing output is returned so that every comparison downstream fails).
 fn write_sync(evs: &[Event<'static>], indent: Option<(u8, usize)>) -> Vec<u8> {
-    let mut w = match indent {
-        None => Writer::new(Vec::new()),
-        Some((c, n)) => Writer::new_with_indent(Vec::new(), c, n),
-    };
-    for e in evs {
-        w.write_event(e.borrow()).unwrap();
+    fn run<W: std::io::Write>(sink: W, evs: &[Event<'static>], indent: Option<(u8, usize)>) -> W {
+        let mut w = match indent {
+            None => Writer::new(sink),
+            Some((c, n)) => Writer::new_with_indent(sink, c, n),
+        };
+        for e in evs {
+            w.write_event(e.borrow()).unwrap();
+        }
+        w.into_inner()
     }
-    w.into_inner()
+    let whole = run(Vec::new(), evs, indent);
+    for max in [1usize, 3] {
+        let short = run(crate::env::ShortSink::new(max), evs, indent).out;
+        if short != whole {
+            return short;
+        }
+    }
+    whole
 }
 fn write_async(evs: &[Event<'static>], indent: Option<(u8, usize)>) -> Vec<u8> {
-    let mut w = match indent {
-        None => Writer::new(Vec::new()),
-        Some((c, n)) => Writer::new_with_indent(Vec::new(), c, n),
-    };
-    for e in evs {
-        block_on(w.write_event_async(e.borrow())).unwrap();
+    fn run<W: tokio::io::AsyncWrite + Unpin>(sink: W, evs: &[Event<'static>], indent: Option<(u8, usize)>) -> W {
+        let mut w = match indent {
+            None => Writer::new(sink),
+            Some((c, n)) => Writer::new_with_indent(sink, c, n),
+        };
+        for e in evs {
+            block_on(w.write_event_async(e.borrow())).unwrap();
+        }
+        w.into_inner()
     }
-    w.into_inner()
+    let whole = run(Vec::new(), evs, indent);
+    for max in [1usize, 5] {
+        let short = run(crate::env::ShortSink::new(max), evs, indent).out;
+        if short != whole {
+            return short;
+        }
+    }
+    whole
 }
 
 /// logical read-back: (kind, name-or-payload (unescaped for Text), attrs (k, unescaped v)); adjacent Text/CData coalesced, empty Text dropped
@@ -345,12 +368,33 @@ pub fn record(out: &str, seed: u64, n: usize) -> Value {
             if rng.gen_bool(0.3) {
                 rows.push(json!(["Eof", []]));
             }
+            let mut ch = if rng.gen_bool(0.5) { b' ' } else { b'\t' };
+            let mut size = rng.gen_range(0..10usize);
+            // the first records are deterministic: nesting whose indentation crosses the 128 preallocated bytes, then grows
+            // level by level well beyond (the cache of indentation bytes is extended on demand)
+            const DEEP: [(usize, usize); 6] = [(1, 140), (4, 40), (9, 20), (2, 70), (7, 45), (3, 100)];
+            if i / 2 < DEEP.len() {
+                let (w, d) = DEEP[i / 2];
+                rows.clear();
+                for _ in 0..d {
+                    rows.push(json!(["Start", "a".as_bytes()]));
+                }
+                rows.push(json!(["Empty", "e k=\"1\"".as_bytes()]));
+                for j in 0..d {
+                    if j == d / 2 {
+                        rows.push(json!(["Comment", " x ".as_bytes()]));
+                    }
+                    rows.push(json!(["End", "a".as_bytes()]));
+                }
+                size = w;
+                ch = if i % 4 == 0 { b' ' } else { b'\t' };
+            }
             let evs: Vec<Event<'static>> = rows.iter().map(|r| event_of_row(r[0].as_str().unwrap(), &bytes(&r[1]))).collect();
-            let ch = if rng.gen_bool(0.5) { b' ' } else { b'\t' };
-            let size = rng.gen_range(0..10usize);
-            let got = write_sync(&evs, Some((ch, size)));
-            let plain = write_sync(&evs, None);
-            let asy = write_async(&evs, Some((ch, size)));
+            // a panic of the writer is data: it is recorded as output the specification cannot produce
+            let guard = |f: &dyn Fn() -> Vec<u8>| catch_unwind(AssertUnwindSafe(f)).unwrap_or_else(|_| b"<<PANIC>>".to_vec());
+            let got = guard(&|| write_sync(&evs, Some((ch, size))));
+            let plain = guard(&|| write_sync(&evs, None));
+            let asy = guard(&|| write_async(&evs, Some((ch, size))));
             writeln!(f, "{}", json!({"t": "WIndent", "evs": rows, "ch": ch, "size": size, "out": got, "plain": plain, "same_async": if asy == got {1} else {0}})).unwrap();
             if len >= 3 {
                 nontriv += 1;
